@@ -222,6 +222,13 @@ def main(argv):
         for i, d in enumerate(fixed):
             for b in (BACKINGS if i < 6 else ["pipe", "file"]):
                 cases.append(("boundary" if z16 not in d else "boundary/line-hashing-to-0", d, b, [], None, ("-", "09")))
+        # partial collisions: distinct lines whose 64-bit hashes agree in the low / high 32 bits must BOTH be kept
+        # (only a full 64-bit collision is excused); found with an independent Python MurmurHash64A
+        partial = murmur_partial_collisions(250000 if not thorough else 1500000, seed=1)
+        for kind_, prs in partial.items():
+            for a_, b_ in prs:
+                cases.append(("partial-collision/" + kind_, a_ + b"\n" + b_ + b"\n" + a_ + b"\n", "pipe", [], None, ("-", "09")))
+                cases.append(("partial-collision/" + kind_, b"x\t" + a_ + b"\ny\t" + b_ + b"\n", "file", ["-f", "2"], cut_key("2", b"\t"), ("2", "09")))
         # -f with a field hashing to 0: the key of `-f 2` is Murmur(field2, seed 1)
         cases.append(("boundary/line-hashing-to-0", b"p\t" + z16 + b"\tq\nr\t" + z16 + b"\ts\nt\tu\tv\n", "pipe", ["-f", "2"], cut_key("2", b"\t"), ("2", "09")))
 
@@ -347,6 +354,10 @@ def main(argv):
                 b.pop()
             pcases.append((b"".join(x + b"\n" for x in a), b"".join(x + b"\n" for x in b), []))
         pcases.append((b"", b"", []))
+        for kind_, prs in partial.items():
+            for a_, b_ in prs[:2]:
+                pcases.append((a_ + b"\n" + b_ + b"\n", b"1\n2\n", []))
+                pcases.append((b"1\n2\n", a_ + b"\n" + b_ + b"\n", []))
         pcases.append((b"same\n", b"same\n", []))                         # a fresh pair with identical source and target
         pcases.append((b"s1\ns2\ns3\n", b"x\ns1\ns2\n", []))            # targets equal to earlier source lines
         pcases.append((b"k\tx\nk\nq\tk\n", b"1\n2\n3\n", ["-f", "1"]))      # -p with a field key, ragged rows
